@@ -68,7 +68,7 @@ def big_job(ctx, module, base, w, s, what, max_events=None):
     if ctx.tier != "thorough" and s > 64:
         max_events = min(max_events or 800, 800 if module == "TraceBigAns" else 500)      # 128-bit states: 128-step long divisions
     if ctx.tier == "thorough":
-        max_events = min(max_events or 10**9, 3000 if s > 64 else 10000)                  # keeps the thorough tier within hours
+        max_events = min(max_events or 10**9, (3000 if module == "TraceBigAns" else 1500) if s > 64 else 10000)   # keeps the thorough tier within an hour
     n = core.limbify(base + ".exact.ndjson", base + ".big.ndjson", lb, max_events)
     if s >= 32:
         ctx.classes["big_trace_events_real_presets"] = ctx.classes.get("big_trace_events_real_presets", 0) + n
